@@ -46,11 +46,11 @@ func New(private *keys.PrivateKey, peerPublic *keys.PublicKey) *SecureMessage {
 func (sm *SecureMessage) shared() (*keys.SymmetricKey, error) {
 	priv, ok := keys.ParsePrivate(sm.private)
 	if !ok {
-		return nil, errors.NewWithCode(errors.InvalidParameter, "Secure Message: invalid private key")
+		return nil, ErrGetOutputSize
 	}
 	pub, ok := keys.ParsePublic(sm.peerPublic)
 	if !ok {
-		return nil, errors.NewWithCode(errors.InvalidParameter, "Secure Message: invalid public key")
+		return nil, ErrGetOutputSize
 	}
 	secret, err := priv.ECDH(pub)
 	if err != nil {
